@@ -15,7 +15,7 @@ META = {
     "engine": "E5 domain + E2 state (adaptive)",
     "rule": ("full product of attempt in {1..4096} + {2^k, 2^k+-1: k<=64} + {1e6, 1e9, 1e18} x "
              "previous delay in {None, 0, 1e-9, base, max, 10*max, 1e308} x (base, max) over "
-             "{0, 1e-9, 0.25, 1, 30, 1e6}^2 with base <= max x owned random draw fraction in {0, "
+             "{0, 1e-9, 0.25, 1, 30, 1e6}^2 (base > max included) x owned random draw fraction in {0, "
              "2^-53, 0.5, 1-2^-53, 1}; retry_after_or over hint x jitter x remaining x fallback "
              "answer lattices; adaptive(): BFS over histories record_success | record_failure | "
              "tick | call(fallback answer) on the real AdaptiveStrategy for target_success x "
@@ -49,7 +49,9 @@ def bounds(tier):
 
 def tasks(tier):
     out = []
-    pairs = [(b, m) for b in PARAMS for m in PARAMS if b <= m]
+    # base_s > max_s is accepted by the constructors (decorrelated_jitter(max_s=0.0) is a
+    # documented idiom): the envelopes are stated in terms of max_s / cap and hold there too
+    pairs = [(b, m) for b in PARAMS for m in PARAMS]
     for strat in ("decorrelated_jitter", "equal_jitter", "token_backoff"):
         for (b, m) in pairs:
             out.append({"family": "envelope", "cfg": {"strategy": strat, "base": b, "max": m},
@@ -74,6 +76,11 @@ def tasks(tier):
     for mn, mx, rem in [(2.0, 5.0, 0.1), (1.0, 5.0, 0.05), (1.5, 1.5, 0.0)]:
         out.append({"family": "adaptive", "cfg": {"target": 0.9, "min": mn, "max": mx, "window": 4,
                                                    "remaining": rem},
+                    "entry": "adaptive", "bound": d - 2, "weight": 2})
+    # the failure carries a Retry-After hint (which adaptive() itself does not interpret)
+    for mn, mx, hint in [(2.0, 5.0, 2.0), (1.5, 1.5, 0.5), (1.0, 3.0, 2.0)]:
+        out.append({"family": "adaptive", "cfg": {"target": 0.9, "min": mn, "max": mx, "window": 4,
+                                                   "hint": hint},
                     "entry": "adaptive", "bound": d - 2, "weight": 2})
     # very long histories inside one window (bounded-memory optimisations must not break the range)
     for ts, (mn, mx) in itertools.product([0.5, 0.9], [(1.0, 3.0), (2.0, 5.0)]):
@@ -256,7 +263,9 @@ def run_adaptive(task, seed):
     W = cfg["window"] * E.TAU
     events = [("ok",), ("fail",), ("tick", 1), ("tick", cfg["window"]), ("tick", cfg["window"] + 1),
               ("call", 0.0), ("call", 0.125), ("call", 5.0), ("call", -1.0)]
-    ctx = S.BackoffContext(attempt=1, classification=Classification(klass=ErrorClass.TRANSIENT),
+    ctx = S.BackoffContext(attempt=1, classification=Classification(klass=ErrorClass.TRANSIENT)
+                           if cfg.get("hint") is None else
+                           Classification(klass=ErrorClass.RATE_LIMIT, retry_after_s=cfg["hint"]),
                            prev_sleep_s=None, remaining_s=cfg.get("remaining"), cause="exception")
 
     def replay(hist):
